@@ -757,8 +757,19 @@ def child_launch(arg: dict) -> dict:
     class LAgent(SAgent):
         n = [1000]
 
+        def __init__(self, rec, lid, state, tolerant, children):
+            super().__init__(rec, lid, state, tolerant, children)
+            self._ctor_state = state
+
+        def on_inference_models_attached(self):
+            # a component may well prepare its persisted members when it is wired up (the attach hooks
+            # are the first place where models and collectors are available): the saved state is loaded
+            # after the wiring and must win
+            self.state = self._ctor_state
+
         def on_data_collectors_attached(self):
             self.colls = {}
+            self.state = self._ctor_state
             if self.lid == spec["tree"][1][1]:
                 self.colls = {name: self.get_data_collector(name) for name, *_ in spec["users"]}
 
@@ -808,9 +819,11 @@ def child_launch(arg: dict) -> dict:
             return super().is_trainable() if collect else False
 
         def train(self):
+            # the work takes a while and its result is written at the end: a run in flight when the system
+            # is told to stop still completes, and the final state must contain what it wrote
+            real_time.sleep(float(arg.get("train_secs", 0.002)))
             for m in self.ms.values():
                 m.version += 1
-            real_time.sleep(0.002)
 
     trainers = {n: LTrainer(training_condition_data_user=cond, min_new_data_count=2)
                 for n, _p, cond in spec["trainers"]}
@@ -819,9 +832,16 @@ def child_launch(arg: dict) -> dict:
         launch(interaction, models, buffers, trainers,
                dict(states_dir=arg["states_dir"], saved_state_path=arg.get("saved"),
                     max_uptime=float(F(arg["uptime"])), web_api_address=None,
-                    time_scale=float(arg["scale"]), timeout_for_all_threads_pause=5.0))
+                    time_scale=float(arg["scale"]),
+                    timeout_for_all_threads_pause=float(arg.get("pause_timeout", 5.0))))
     except BaseException as e:      # noqa: BLE001 - reported to the parent
         err = f"{type(e).__name__}: {e}"
+    # "the values the run ended with" are those after its last step / training run has finished: wait for
+    # any thread launch() may have left behind (there is none on a correct system)
+    t_end = real_time.monotonic() + 3.0
+    leftovers = [t for t in threading.enumerate() if t is not threading.main_thread() and not t.name.startswith("asyncio")]
+    for t in leftovers:
+        t.join(max(0.0, t_end - real_time.monotonic()))
     end_clock = ptime.time()
     tr0 = next(iter(trainers.values())) if trainers else None
     if probes is None:
@@ -860,8 +880,9 @@ def launch_case(case: dict) -> tuple[list[Violation], dict]:
     vs: list[Violation] = []
     try:
         base = {"spec": case["spec"], "states_dir": os.path.join(tmp, "states"), "scale": case["scale"]}
+        slow = {"train_secs": 0.4, "pause_timeout": 0.03} if case.get("slow_train") else {}
         r1 = run_child("launch", {**base, "offset": 1000.0, "collect": True, "uptime": case["uptime"],
-                                  "probes": None})
+                                  "probes": None, **slow})
         if r1["error"] or len(r1["states"]) != 1:
             return [Violation("launch:run-failed", f"first run: {r1['error']}, states {r1['states']}", case)], {}
         saved = os.path.join(tmp, "states", r1["states"][0])
@@ -910,7 +931,10 @@ def gen_launch_case(rng) -> dict:
                        [["t1", "-inf", spec["users"][0][0]]]
     spec["models"] = [[n, v, True, v] for n, v, _s, _iv in spec["models"]] or [["m", 3, True, 3]]
     scale = rng.choice(["1", "20", "200"])
-    return {"spec": spec, "scale": scale, "uptime": show_frac(F(scale) * F(3, 20))}
+    # in half of the cases a training run (0.4 s, far longer than the pause time-out) is in flight when the
+    # uptime limit ends the run
+    return {"spec": spec, "scale": scale, "uptime": show_frac(F(scale) * F(3, 20)),
+            "slow_train": rng.random() < 0.5}
 
 
 def suite_launch(ctx: Ctx) -> SuiteResult:
@@ -921,6 +945,8 @@ def suite_launch(ctx: Ctx) -> SuiteResult:
                            "8000 s; what the components observe in their first callbacks must equal "
                            "what the first run ended with; distinct by system description")
     cases = [gen_launch_case(ctx.rng) for _ in range(ctx.n(4, 24))]
+    for i, c in enumerate(cases):
+        c["slow_train"] = i % 2 == 0
     # max_uptime is in system time: keep the real duration of run 1 around 0.1-0.3 s
     with ThreadPoolExecutor(max_workers=8) as ex:
         for case, (vs, info) in zip(cases, ex.map(launch_case, cases)):
